@@ -37,6 +37,7 @@ func init() {
 			ruleFinishRenameLast(r)
 			ruleWalkSkipsRoot(r)
 			ruleByteAPICopies(r)
+			ruleSyncFailureRollsBack(r)
 		})
 	register("C07",
 		"Static ordering rules for the WAL: sync append = write + flush + fsync before a nil return (must-pass-through on the CFG), AppendSync uses the fsyncing writer call, rotation closes the old file before creating the next, size check precedes each write, replay sorts the fixed-width file names before reading, and replay classifies every truncation-class reader error as end of log (E-TORN). Decides the orderings on all paths; sequence equality and crash-point enumeration are not decided.",
